@@ -219,7 +219,7 @@ def units(tier, seed=0):
                     extra = dict(extra); extra['unwind'] = 4; extra['kind'] = 'bounded(capacity 2, span items <= 2, loops unwound)'
                 u = dict(id='vec.%s.F%d.%s' % (L.tag, f, name), tu='vec_%s_F%d' % (L.tag, f), gen=cxx, template_text=txt, vars={}, entry=h,
                          enforce=('@F{%s}' % vec.RXV[key]) if key else None, replace=['@F{%s}' % vec.REPL[r] for r in repl], props=props, layer='vector.hpp/elementLocator.hpp',
-                         kind=extra.get('kind', 'proof'), config='vector: %s, allocator traits F=%d' % (spec, f))
+                         kind=extra.get('kind', 'proof'), config='vector: %s, allocator traits F=%d' % (spec, f), replay='history')
                 if extra.get('tier') == 'thorough' and tier != 'thorough': continue
                 if extra.get('timeout'): u['timeout'] = extra['timeout']
                 if extra.get('law'): u['expect_classes'] = ['assertion']
